@@ -123,17 +123,17 @@ def _forget_worktree(repo: str, location: str) -> None:
     process = subprocess.run(
         ["git", "-C", repo, "rev-parse", "--git-common-dir"],
         capture_output=True,
-        text=True,
         check=False,
         env=_git_env(),
     )
     if process.returncode:
         return
-    worktrees_dir = Path(repo, process.stdout.strip(), "worktrees")
+    # File names are bytes, not necessarily valid UTF-8: decode them the way Python decodes paths.
+    worktrees_dir = Path(repo, os.fsdecode(process.stdout.strip()), "worktrees")
     gitlink = os.path.join(os.path.realpath(location), ".git")  # noqa: PTH118
     for gitdir_file in worktrees_dir.glob("*/gitdir"):
         with suppress(OSError):
-            if os.path.realpath(gitdir_file.read_text(encoding="utf8").strip()) == gitlink:
+            if os.path.realpath(os.fsdecode(gitdir_file.read_bytes().strip())) == gitlink:
                 shutil.rmtree(gitdir_file.parent, ignore_errors=True)
     with suppress(OSError):
         worktrees_dir.rmdir()  # Git does not keep it when it is empty.
